@@ -782,8 +782,10 @@ class Permutation(base.Recombinator):
   def _on_bound(self):
     super()._on_bound()
     self._random = random if self.seed is None else random.Random(self.seed)
-    if self.where.sym_hasattr('seed'):
-      self.where.rebind(seed=self.seed, skip_notification=True)
+    if self.where.sym_hasattr('seed') and self.where.seed != self.seed:
+      # NOTE: the filter re-creates its random number generator from the seed
+      # when it is notified of the change.
+      self.where.rebind(seed=self.seed)
 
   def recombine(
       self,
